@@ -26,6 +26,13 @@ engines and answers outside the move's answer domain on such inputs are findings
 is active for EVERY pair of limits (the model and all theorems are about the code after
 proposed_fixes/C11_zero_swap_own_limits.diff, which sizes and measures each new path by its own ensemble's limit).
 
+Real files (oracle only, no model comparison): `real_files_stage` runs retis and quantis zero swaps, single and
+double, with two REAL file-writing TurtleMDEngine objects (double-well example; same parameters and two different
+levels of theory) that share one worker directory per move, and evaluates the statement on the configurations the
+returned frames refer to: every frame's (file, index) exists and holds the configuration with the frame's order
+parameter, no two propagate calls of a move wrote the same file, the junction frames are the old paths' frames as
+configurations (x, v), two swaps restore both order sequences within 1e-6.
+
 The model also carries the code before that repair (select_swap_g false false, request `swap0`; refuted by
 C11_swap_valid_limit_order_refuted / C11_quantis_limit_order_refuted).  Which of the two the tree under test has
 is found by ONE probing call per move (`probe_variant`); only the lock-step (which model variant the real
@@ -43,9 +50,9 @@ import common
 META = {
     "id": "C11",
     "level": "proof",
-    "technique": "Coq theorems over a literal model of retis_swap_zero / quantis_swap_zero (stop-rule invariants, abstract reversible dynamics: one engine and two different engines, one per ensemble) + scripted-oracle lock-step of the extracted model vs the real functions with two distinguishable engine objects",
-    "text": "Unbounded theorems (any paths, interface values, length limits, engine frame streams, draws, energies) about an executable model of the two zero-swap moves over the current add_to_path stop rule: junction identity as frame identities and as order values (C11_swap_junction_frames, C11_swap_junction), full shape of an accepted swap and the converse sufficient conditions (C11_swap_accepted_shape, C11_swap_accepted_if), validity of both new paths, each below ITS OWN ensemble's length limit (C11_swap_valid; the two limits maxlength([0-]) and maxlength([0+]) are separate inputs of the model and every theorem holds for EVERY pair of limits), a swap that cannot complete a new path below that path's own limit is rejected BTX / FTX (C11_swap_limit_reject), the code before proposed_fixes/C11_zero_swap_own_limits.diff (kept in the model behind the boolean `fixed`: backward container of retis_swap_zero sized with the [0+] limit, quantis_swap_zero reading the [0-] limit for both paths) accepts an incomplete [0-] path / measures the [0+] path against the wrong limit, while the code handles the same inputs correctly (C11_swap_valid_limit_order_refuted, C11_quantis_limit_order_refuted), and coincides with the code when the two limits are equal (C11_before_fix_same_on_equal_limits), the variant that sizes the forward container of the new [0+] path with the [0-] limit accepts an incomplete [0+] path (C11_forward_segment_minus_limit_refuted; C11_variant_is_code_at_plus_limit ties the variant definition to the code), lambda_-1 early rejection with no engine call and no draw (C11_lambda_m1_test, C11_lambda_m1_reject), QuanTIS energy rule u <= min(1,E) with the exponent's signs and the frames the four energies are read from (C11_quantis_accept_iff, C11_quantis_exponent), QuanTIS junction (C11_quantis_junction) and each new path below its own limit for any two limits (C11_quantis_own_limits), and for an abstract deterministic time-reversible engine (state space X, step T, reversal R with R.R = id, R.T.R.T = id, ord.R = ord) that the swap back is accepted and restores both order sequences (C11_swap_twice_id, C11_swap_twice_restores). Which engine object does what is part of the model (every modelled propagate call names the object it is made on: E0 = engines[-1][0] for [0-], E1 = engines[0][0] for [0+]): an accepted swap runs backward on E0 and forward on E1, every frame of the new [0-] path but the shared point old[0+][1] is a frame of the E0 call's answer and every frame of the new [0+] path but the shared point old[0-][-2] one of the E1 call's (C11_swap_engines); QuanTIS calls E0, E1, E0, E1 (C11_quantis_engines, C11_quantis_junction). With TWO different deterministic dynamics (T0,R0) for [0-] and (T1,R1) for [0+] over one phase space (simulation.ensemble_engines): the streams are the answers of exactly the engines the calls are made on (C11_two_engines_calls), the new [0-] path is the backward T0-trajectory from old[0+][0] plus the shared point and the new [0+] path the shared point plus the forward T1-trajectory from old[0-][-1] (C11_two_engines_segments), and if old [0-] is a T0-trajectory and old [0+] a T1-trajectory the swap back is accepted and both order sequences are restored, assuming time-reversibility of the [0-] engine only (C11_swap_twice_id_two_engines, C11_swap_twice_restores_two_engines; one engine is the special case T0=T1, C11_one_engine_special_case). The model is tied to /repo by running the extracted model and the real select_shoot/retis_swap_zero/quantis_swap_zero on the same old paths, settings, engine streams, draws and energies (all valid [0-]/[0+] pairs over a small integer alphabet, limits incl. exact hits, INDEPENDENT limits for the two ensembles (every ordered pair (maxlength[0-], maxlength[0+]) of a grid needed-1 / needed / needed+1 / needed+2 / much larger around the lengths the two new paths need, for all 8x8 backward x forward stream patterns incl. new paths of the minimal 3 frames, retis and quantis), lambda_minus_one on/off, wf high-acceptance swap, quantis with draws around the Metropolis threshold), always with two distinguishable engine objects whose identity is logged per call and per frame and compared with the model's, and by evaluating the property's statement on the implementation's outputs (incl. which engine produced which frames), including double swaps of the real functions with deterministic reversible integer engines: one dynamics for both ensembles and two different dynamics (one per ensemble; new paths must be trajectories of their own ensemble's dynamics, two swaps must restore both sequences; every retis swap of these also compared with the model).",
-    "note": "Trusted: Coq kernel; extraction (ExtrOcamlBasic) + OCaml driver; this harness (scripted engines built on plugins.engines.ScriptedEngine and the real add_to_path, scripted rgen, np.exp shim, canonicalisation). No axioms (every Print Assumptions is closed). exp is not modelled: its value E is computed by numpy exactly as the code does and handed to the model as the exact rational of that float; the exponent is compared exactly (dyadic energies/betas). -inf is represented in the model by an integer below every order value of the case. The order-value form of the junction assumes that an engine's first frame carries the order parameter of the phase point it was started from (propagate contract, C12); validity theorems assume ordered interfaces; no theorem and no oracle clause restricts the two length limits (infretis itself hands both ensembles one shared tis_set, i.e. equal limits; unequal limits arise when a caller builds the ensemble dicts itself). Model and theorems are about the code AFTER proposed_fixes/C11_zero_swap_own_limits.diff (retis_swap_zero sizes the backward container with maxlen0 - 1, quantis_swap_zero reads maxlen1 from ens_set1). The code before that repair is the same model at fixed = false (retis_swap_zero_before_fix / quantis_swap_zero_before_fix, request swap0), kept for the two refutation witnesses about the ORIGINAL code. Variant of the code under test: C11 has no generated-parameter file; the check probes the real functions ONCE each (retis_swap_zero with limits 12/5: size of the container handed to the backward run, 11 = repaired, 4 = before the repair; quantis_swap_zero with limits 8/4: size of the container handed to the forward run, 3 = repaired, 7 = before); an unrepaired answer makes the LOCK-STEP compare that move with the before-fix variant of the model so that the correspondence stays meaningful; any other answer keeps the repaired model (and shows up in the lock-step). The oracle never depends on the probe: it always demands that each new path is complete and below its own ensemble's limit, so a tree without the repair is reported with concrete failing inputs (VIOLATION); the probe's answers are recorded in coverage.correspondence.variant. The oracle is total: an exception, an exhausted engine or an answer outside the move's answer domain on an input whose outcome the statement fixes is reported with that input. The swap never reads propagate's success flag, so it is insensitive to the add_to_path repair (C11_stop_rule_irrelevant). The QuanTIS double swap (one and two engines) is checked on the implementation only (no Coq theorem); reversibility of real MD engines is an assumption of the statement itself. Two engines: the Coq theorems allow engine-specific velocity reversals R0, R1 and need reversibility of the [0-] engine only (the [0+] engine is never run backward by the swap); the harness engines share one reversal (v -> -v) as real MD engines do. Which engine object calls dump_phasepoint (engine1 for 'second', engine0 for 'second_last' in the code) is not modelled: a dumped copy holds the same configuration whoever writes it. Engine identity in the lock-step is a label of the engine object (the prescribed orders of a call do not depend on it), in the double swaps it is a different dynamics. quantis_swap_zero has no lambda_-1 early exit: check_config rejects quantis together with lambda_minus_one.",
+    "technique": "Coq theorems over a literal model of retis_swap_zero / quantis_swap_zero (stop-rule invariants, abstract reversible dynamics: one engine and two different engines, one per ensemble) + scripted-oracle lock-step of the extracted model vs the real functions with two distinguishable engine objects + oracle-only zero swaps with real file-writing TurtleMD engines in one shared worker directory",
+    "text": "Unbounded theorems (any paths, interface values, length limits, engine frame streams, draws, energies) about an executable model of the two zero-swap moves over the current add_to_path stop rule: junction identity as frame identities and as order values (C11_swap_junction_frames, C11_swap_junction), full shape of an accepted swap and the converse sufficient conditions (C11_swap_accepted_shape, C11_swap_accepted_if), validity of both new paths, each below ITS OWN ensemble's length limit (C11_swap_valid; the two limits maxlength([0-]) and maxlength([0+]) are separate inputs of the model and every theorem holds for EVERY pair of limits), a swap that cannot complete a new path below that path's own limit is rejected BTX / FTX (C11_swap_limit_reject), the code before proposed_fixes/C11_zero_swap_own_limits.diff (kept in the model behind the boolean `fixed`: backward container of retis_swap_zero sized with the [0+] limit, quantis_swap_zero reading the [0-] limit for both paths) accepts an incomplete [0-] path / measures the [0+] path against the wrong limit, while the code handles the same inputs correctly (C11_swap_valid_limit_order_refuted, C11_quantis_limit_order_refuted), and coincides with the code when the two limits are equal (C11_before_fix_same_on_equal_limits), the variant that sizes the forward container of the new [0+] path with the [0-] limit accepts an incomplete [0+] path (C11_forward_segment_minus_limit_refuted; C11_variant_is_code_at_plus_limit ties the variant definition to the code), lambda_-1 early rejection with no engine call and no draw (C11_lambda_m1_test, C11_lambda_m1_reject), QuanTIS energy rule u <= min(1,E) with the exponent's signs and the frames the four energies are read from (C11_quantis_accept_iff, C11_quantis_exponent), QuanTIS junction (C11_quantis_junction) and each new path below its own limit for any two limits (C11_quantis_own_limits), and for an abstract deterministic time-reversible engine (state space X, step T, reversal R with R.R = id, R.T.R.T = id, ord.R = ord) that the swap back is accepted and restores both order sequences (C11_swap_twice_id, C11_swap_twice_restores). Which engine object does what is part of the model (every modelled propagate call names the object it is made on: E0 = engines[-1][0] for [0-], E1 = engines[0][0] for [0+]): an accepted swap runs backward on E0 and forward on E1, every frame of the new [0-] path but the shared point old[0+][1] is a frame of the E0 call's answer and every frame of the new [0+] path but the shared point old[0-][-2] one of the E1 call's (C11_swap_engines); QuanTIS calls E0, E1, E0, E1 (C11_quantis_engines, C11_quantis_junction). With TWO different deterministic dynamics (T0,R0) for [0-] and (T1,R1) for [0+] over one phase space (simulation.ensemble_engines): the streams are the answers of exactly the engines the calls are made on (C11_two_engines_calls), the new [0-] path is the backward T0-trajectory from old[0+][0] plus the shared point and the new [0+] path the shared point plus the forward T1-trajectory from old[0-][-1] (C11_two_engines_segments), and if old [0-] is a T0-trajectory and old [0+] a T1-trajectory the swap back is accepted and both order sequences are restored, assuming time-reversibility of the [0-] engine only (C11_swap_twice_id_two_engines, C11_swap_twice_restores_two_engines; one engine is the special case T0=T1, C11_one_engine_special_case). The model is tied to /repo by running the extracted model and the real select_shoot/retis_swap_zero/quantis_swap_zero on the same old paths, settings, engine streams, draws and energies (all valid [0-]/[0+] pairs over a small integer alphabet, limits incl. exact hits, INDEPENDENT limits for the two ensembles (every ordered pair (maxlength[0-], maxlength[0+]) of a grid needed-1 / needed / needed+1 / needed+2 / much larger around the lengths the two new paths need, for all 8x8 backward x forward stream patterns incl. new paths of the minimal 3 frames, retis and quantis), lambda_minus_one on/off, wf high-acceptance swap, quantis with draws around the Metropolis threshold), always with two distinguishable engine objects whose identity is logged per call and per frame and compared with the model's, and by evaluating the property's statement on the implementation's outputs (incl. which engine produced which frames), including double swaps of the real functions with deterministic reversible integer engines: one dynamics for both ensembles and two different dynamics (one per ensemble; new paths must be trajectories of their own ensemble's dynamics, two swaps must restore both sequences; every retis swap of these also compared with the model). ORACLE ONLY, REAL FILES (no model comparison for this family): retis and quantis zero swaps, each run twice (swap and swap back), by two real file-writing TurtleMDEngine objects (double-well system of examples/turtlemd/double_well, built by infretis' engine factory; once with the same parameters for [0-] and [0+], once with two distinguishable levels of theory: timestep 0.025 / potential b=2.0 for [0-], timestep 0.02 / b=2.1 for [0+]) that share ONE worker directory per move as a worker's engines do, from start paths grown by each ensemble's own dynamics through fixed configurations (no random numbers anywhere); on the returned paths: (1) every frame refers to a file that exists and the configuration read back from (file, index) with the engine's own reader has the order parameter stored in the frame, (2) no two propagate calls of one move created or changed the same file (EngineBase.propagate wrapped: directory listing with size, mtime and content hash before/after each call), (3) the junction on the configurations (x, v) read from the files: new[0+][0] = old[0-][-2] and new[0-][-2] = old[0+][0], and (retis, and quantis with one dynamics) new[0+][1] = old[0-][-1], new[0-][-1] = old[0+][1], (4) a valid pair is swapped (the only admitted rejection is QS0/QS1 of the first quantis swap with two levels of theory), the swap back is accepted and restores both order sequences within 1e-6 (same lengths).",
+    "note": "Trusted: Coq kernel; extraction (ExtrOcamlBasic) + OCaml driver; this harness (scripted engines built on plugins.engines.ScriptedEngine and the real add_to_path, scripted rgen, np.exp shim, canonicalisation). No axioms (every Print Assumptions is closed). exp is not modelled: its value E is computed by numpy exactly as the code does and handed to the model as the exact rational of that float; the exponent is compared exactly (dyadic energies/betas). -inf is represented in the model by an integer below every order value of the case. The order-value form of the junction assumes that an engine's first frame carries the order parameter of the phase point it was started from (propagate contract, C12); validity theorems assume ordered interfaces; no theorem and no oracle clause restricts the two length limits (infretis itself hands both ensembles one shared tis_set, i.e. equal limits; unequal limits arise when a caller builds the ensemble dicts itself). Model and theorems are about the code AFTER proposed_fixes/C11_zero_swap_own_limits.diff (retis_swap_zero sizes the backward container with maxlen0 - 1, quantis_swap_zero reads maxlen1 from ens_set1). The code before that repair is the same model at fixed = false (retis_swap_zero_before_fix / quantis_swap_zero_before_fix, request swap0), kept for the two refutation witnesses about the ORIGINAL code. Variant of the code under test: C11 has no generated-parameter file; the check probes the real functions ONCE each (retis_swap_zero with limits 12/5: size of the container handed to the backward run, 11 = repaired, 4 = before the repair; quantis_swap_zero with limits 8/4: size of the container handed to the forward run, 3 = repaired, 7 = before); an unrepaired answer makes the LOCK-STEP compare that move with the before-fix variant of the model so that the correspondence stays meaningful; any other answer keeps the repaired model (and shows up in the lock-step). The oracle never depends on the probe: it always demands that each new path is complete and below its own ensemble's limit, so a tree without the repair is reported with concrete failing inputs (VIOLATION); the probe's answers are recorded in coverage.correspondence.variant. The oracle is total: an exception, an exhausted engine or an answer outside the move's answer domain on an input whose outcome the statement fixes is reported with that input. The swap never reads propagate's success flag, so it is insensitive to the add_to_path repair (C11_stop_rule_irrelevant). The QuanTIS double swap (one and two engines) is checked on the implementation only (no Coq theorem); reversibility of real MD engines is an assumption of the statement itself. Two engines: the Coq theorems allow engine-specific velocity reversals R0, R1 and need reversibility of the [0-] engine only (the [0+] engine is never run backward by the swap); the harness engines share one reversal (v -> -v) as real MD engines do. Which engine object calls dump_phasepoint (engine1 for 'second', engine0 for 'second_last' in the code) is not modelled: a dumped copy holds the same configuration whoever writes it. Engine identity in the lock-step is a label of the engine object (the prescribed orders of a call do not depend on it), in the double swaps it is a different dynamics. quantis_swap_zero has no lambda_-1 early exit: check_config rejects quantis together with lambda_minus_one. Real-file family: oracle only (the Coq model has no file system: a frame is an abstract tag there, so file naming, e.g. which counter numbers the trajectory files of a propagation, is outside the model and is checked on the implementation alone); the engines are real TurtleMDEngine objects with all their file I/O (dump_config/_extract_frame, reversed-velocity files, trajectory/msg/conf files named by EngineBase.propagate), only the integrator class is turtlemd's VelocityVerlet handed in through a one-line adapter (TurtleMDEngine passes every integrator a seed argument that VelocityVerlet does not take; with the example's LangevinInertia integrator at small friction (gamma 1e-5, beta 1e12) a double swap restores the sequences only to about 1e-5, measured); each swap runs in a fresh worker directory shared by the two engine objects (infretis moves accepted files out and cleans the directory between moves), both objects are fresh at the first swap (equal numbers of propagations started) and have each started two more at the swap back; tolerance 1e-6 against the 9 decimals of the xyz files; lambda_minus_one and unequal length limits are not part of this family (covered by the scripted families); the two-levels-of-theory quantis scenarios use accept_all (the energy rule is covered by the scripted family), the one-dynamics ones the real rule with the draw 0.5.",
     "design_ref": "4/C11",
 }
 LEVEL = "proof"
@@ -1374,6 +1381,350 @@ def run_double_swap(ctx, VerletEngine, ds_log, quantis, lm1, names, starts, maxl
     return done(True)
 
 
+# --------------------------------------------------------------------------- real file-writing engines in one worker directory
+#
+# Oracle only, real files (no model comparison): the zero swaps are run by two TurtleMDEngine OBJECTS (the
+# double-well system of examples/turtlemd/double_well) that share one worker directory, exactly as a worker's
+# [0-] and [0+] engines do.  The frames of the new paths are (file name, index) references: the statement is
+# about the configurations those references resolve to, so the oracle reads them back.
+
+RF_L0, RF_LN = -0.99, 1.0
+RF_MAXLEN = 2000
+RF_TOL = 1e-6
+# engine parameters: "A" is the example's engine; "B" is a different level of theory (other timestep, other
+# potential) used for [0+] in the scenarios with two distinguishable engines
+RF_PARAMS = {"A": {"timestep": 0.025, "b": 2.0}, "B": {"timestep": 0.02, "b": 2.1}}
+# (x, v) of the configuration the start paths are grown from (backward + forward with the ensemble's own engine)
+RF_MINUS = [(-1.1, -0.2), (-1.05, 0.3), (-1.2, 0.0), (-1.02, -0.35)]
+RF_PLUS = [(-0.9, 0.25), (-0.8, -0.3), (-0.9, 1.5), (-0.95, 0.4), (-0.7, 0.0)]      # (-0.9, 1.5) crosses the barrier: ends beyond lambda_N
+RF_KINDS = ("frame data", "shared file", "junction", "rejected", "swap back rejected", "not restored", "raised")
+
+
+def rf_engine(key, seed):
+    """TurtleMDEngine built by infretis' own factory from the example's [engine] section.  The integrator is
+    turtlemd's VelocityVerlet (deterministic, exactly time-reversible); TurtleMDEngine hands every integrator a
+    `seed` argument that VelocityVerlet does not take, so the class is plugged in through a one-line adapter."""
+    import contextlib
+    import io
+    import numpy as np
+    from infretis.classes.engines.factory import create_engine
+    from infretis.classes.orderparameter import create_orderparameters
+    from turtlemd.integrators import VelocityVerlet
+    p = RF_PARAMS[key]
+    settings = {"class": "turtlemd", "engine": "turtlemd", "timestep": p["timestep"], "temperature": 0.07, "boltzmann": 1.0,
+                "subcycles": 1, "integrator": {"class": "VelocityVerlet", "settings": {}},
+                "potential": {"class": "DoubleWell", "settings": {"a": 1.0, "b": p["b"], "c": 0.0}},
+                "particles": {"mass": [1.0], "name": ["Z"], "pos": [[-1.0]]}, "box": {"periodic": [False]}}
+    with contextlib.redirect_stdout(io.StringIO()):         # the constructor prints a to-do note
+        eng = create_engine({"engine": settings})
+    eng.integrator = lambda timestep, seed=None, **kw: VelocityVerlet(timestep=timestep)
+    eng.integrator_settings = {}
+    eng.rgen = np.random.default_rng(seed)
+    create_orderparameters({"engine": [eng]}, {"orderparameter": {"class": "Position", "index": [0, 0], "periodic": False}})
+    return eng
+
+
+def rf_ensembles(quantis, accept_all):
+    """[0-] and [0+] dicts as REPEX_state.initiate_ensembles builds them (one shared tis_set, as in a simulation)"""
+    from infretis.classes.repex import REPEX_state
+    tis = {"lambda_minus_one": False, "maxlength": RF_MAXLEN, "allowmaxlength": False, "zero_momentum": False, "n_jumps": 4,
+           "accept_all": accept_all, "quantis": quantis}
+    fake = types.SimpleNamespace(config={"simulation": {"interfaces": [RF_L0, RF_LN], "tis_set": tis, "shooting_moves": ["sh", "sh"]}})
+    REPEX_state.initiate_ensembles(fake)
+    e0, e1 = dict(fake.ensembles[0]), dict(fake.ensembles[1])
+    e0["rgen"] = ScriptRng([0.5] * 8)
+    e1["rgen"] = ScriptRng(())
+    return e0, e1
+
+
+def rf_grow(engine, ens_set, state, wdir):
+    """a path of the ensemble through the configuration `state` = (x, v): backward and forward run of the
+    ensemble's own engine in its own directory, pasted as shoot does"""
+    import os
+    import numpy as np
+    from infretis.classes.engines.engineparts import write_xyz_trajectory
+    from infretis.classes.path import Path, paste_paths
+    from infretis.classes.system import System
+    os.makedirs(wdir)
+    engine.exe_dir = wdir
+    start = os.path.join(wdir, "start.xyz")
+    write_xyz_trajectory(start, np.array([[state[0], 0.0, 0.0]]), np.array([[state[1], 0.0, 0.0]]), ["Z"], None, append=False)
+    s = System()
+    s.config = (start, 0)
+    s.order = [state[0]]
+    s.vel_rev = False
+    back, forw = Path(maxlen=RF_MAXLEN), Path(maxlen=RF_MAXLEN)
+    engine.propagate(back, ens_set, s.copy(), reverse=True)
+    engine.propagate(forw, ens_set, s.copy(), reverse=False)
+    p = paste_paths(back, forw, overlap=True, maxlen=RF_MAXLEN)
+    p.status = "ACC"
+    p.weight = 1.0
+    return p
+
+
+def rf_name(fname):
+    """file name without directory and pid (messages and replays must not depend on them)"""
+    import os
+    return re.sub(rf"_{os.getpid()}_", "_<pid>_", os.path.basename(str(fname)))
+
+
+def rf_clean(text):
+    """a message (e.g. of an exception) without directories and pid"""
+    import os
+    return re.sub(rf"_{os.getpid()}_", "_<pid>_", re.sub(r"/[^\s'\"]*/", "", str(text)))
+
+
+class RfReader:
+    """reads the configuration a frame refers to with the engine's own reader (read_xyz_file / convert_snapshot,
+    what TurtleMDEngine._read_configuration and _extract_frame use)"""
+
+    def __init__(self):
+        self.files = {}
+
+    def frames(self, fname):
+        import os
+        from infretis.classes.engines.engineparts import convert_snapshot, read_xyz_file
+        if fname not in self.files:
+            if not os.path.isfile(fname):
+                self.files[fname] = None
+            else:
+                self.files[fname] = [convert_snapshot(snap) for snap in read_xyz_file(fname)]
+        return self.files[fname]
+
+    def state(self, engine, pp):
+        """(problem, x, physical v, order computed from the stored configuration) of a phase point"""
+        fname, idx = pp.config
+        fr = self.frames(fname)
+        if fr is None:
+            return f"refers to the file {rf_name(fname)}, which does not exist", None, None, None
+        idx = 0 if idx is None else int(idx)
+        if not 0 <= idx < len(fr):
+            return f"refers to frame {idx} of {rf_name(fname)}, which holds {len(fr)} frame(s)", None, None, None
+        box, xyz, vel, _ = fr[idx]
+        probe = pp.copy()
+        order = engine.calculate_order(probe, xyz=xyz, vel=vel, box=box if box is not None else engine.box.length)
+        v = float(vel[0][0]) * (-1.0 if pp.vel_rev else 1.0)
+        return None, float(xyz[0][0]), v, float(order[0])
+
+
+class PropagateRecorder:
+    """wraps EngineBase.propagate while active: per call, the files of the engine's directory that the call
+    created or changed (size, mtime, content)"""
+
+    def __init__(self):
+        self.calls = []
+
+    @staticmethod
+    def listing(d):
+        import hashlib
+        import os
+        out = {}
+        for item in os.scandir(d):
+            if item.is_file():
+                st = item.stat()
+                with open(item.path, "rb") as f:
+                    out[item.name] = (st.st_size, st.st_mtime_ns, hashlib.sha1(f.read()).hexdigest())
+        return out
+
+    def __enter__(self):
+        from infretis.classes.engines.enginebase import EngineBase
+        self.cls = EngineBase
+        self.orig = EngineBase.propagate
+        rec = self
+
+        def propagate(eng, path, ens_set, system, reverse=False):
+            before = rec.listing(eng.exe_dir)
+            try:
+                return rec.orig(eng, path, ens_set, system, reverse=reverse)
+            finally:
+                after = rec.listing(eng.exe_dir)
+                rec.calls.append({"engine": getattr(eng, "rf_label", "?"), "ens_name": ens_set["ens_name"], "reverse": bool(reverse),
+                                  "written": sorted(n for n, v in after.items() if before.get(n) != v)})
+
+        EngineBase.propagate = propagate
+        return self
+
+    def __exit__(self, *a):
+        self.cls.propagate = self.orig
+        return False
+
+
+def rf_swap_oracle(scn, step, olds, news, engines, calls, same):
+    """clauses (1)-(3) on one accepted swap.  olds / news: (path [0-], path [0+]).  Returns [(kind, message)]."""
+    errs = []
+    quantis = scn["move"] == "quantis"
+    rd = RfReader()
+    names = ("[0-]", "[0+]")
+    # (1) every frame carries its own data
+    for name, path, eng in zip(names, news, engines):
+        bad = []
+        for k, pp in enumerate(path.phasepoints):
+            prob, x, v, o = rd.state(eng, pp)
+            if prob:
+                bad.append(f"frame {k} (order {float(pp.order[0]):.9f}) {prob}")
+            elif abs(o - float(pp.order[0])) > RF_TOL:
+                bad.append(f"frame {k} has order {float(pp.order[0]):.9f} but the configuration it refers to "
+                           f"({rf_name(pp.config[0])}, {pp.config[1]}) has order {o:.9f}")
+        if bad:
+            errs.append(("frame data", f"swap {step}: {len(bad)} of {path.length} frames of the new {name} path do not refer to their own "
+                                       f"configuration, e.g. {bad[0]}"))
+    # (2) distinct propagate calls of the move never write the same file
+    def who_call(n, c):
+        return (f"propagate call {n + 1} (engine object of {c['engine']}, ens_name {c['ens_name']}, "
+                f"{'backward' if c['reverse'] else 'forward'})")
+
+    shared = [(i, j, sorted(set(calls[i]["written"]) & set(calls[j]["written"])))
+              for i in range(len(calls)) for j in range(i + 1, len(calls))]
+    shared = [t for t in shared if t[2]]
+    if shared:
+        i, j, both = shared[0]
+        errs.append(("shared file", f"swap {step}: {who_call(i, calls[i])} and {who_call(j, calls[j])} of one move wrote the same file(s) "
+                                    f"{[rf_name(n) for n in both]} in the shared worker directory"))
+    # (3) junction, on the configurations
+    old0, old1 = olds
+    new0, new1 = news
+    pairs = [("new [0+] frame 0", new1.phasepoints[0], engines[1], "old [0-] frame -2", old0.phasepoints[-2], engines[0]),
+             ("new [0-] frame -2", new0.phasepoints[-2], engines[0], "old [0+] frame 0", old1.phasepoints[0], engines[1])]
+    if same or not quantis:
+        # retis: the shared points are copies of the old frames; quantis: the one-step frames, equal to the old
+        # crossing frames when both ensembles have the same dynamics
+        pairs += [("new [0+] frame 1", new1.phasepoints[1], engines[1], "old [0-] frame -1", old0.phasepoints[-1], engines[0]),
+                  ("new [0-] frame -1", new0.phasepoints[-1], engines[0], "old [0+] frame 1", old1.phasepoints[1], engines[1])]
+    for na, pa, ea, nb, pb, eb in pairs:
+        proba, xa, va, _ = rd.state(ea, pa)
+        probb, xb, vb, _ = rd.state(eb, pb)
+        if proba or probb:
+            errs.append(("junction", f"swap {step}: {na if proba else nb} {proba or probb}"))
+        elif abs(xa - xb) > RF_TOL or abs(va - vb) > RF_TOL or abs(float(pa.order[0]) - float(pb.order[0])) > RF_TOL:
+            errs.append(("junction", f"swap {step}: {na} (order {float(pa.order[0]):.9f}, stored configuration x={xa:.9f} v={va:.9f}) is not "
+                                     f"{nb} (order {float(pb.order[0]):.9f}, stored configuration x={xb:.9f} v={vb:.9f})"))
+    return errs
+
+
+def run_real_files(scn):
+    """One scenario: scn = {"move": retis|quantis, "engines": same|different, "minus": (x, v), "plus": (x, v)}.
+    Start paths are grown by separate engine objects in their own directories; then the REAL zero swap is run
+    twice by two fresh TurtleMDEngine objects sharing one worker directory per move.
+    Returns ([(kind, message)], evaluated?, info)."""
+    import os
+    import infretis.core.tis as tis
+    quantis = scn["move"] == "quantis"
+    same = scn["engines"] == "same"
+    k0, k1 = "A", ("A" if same else "B")
+    who = f"{scn['move']} zero swap run by two real TurtleMDEngine objects sharing the worker directory"
+    tail = (f" [scenario: engine of [0-] {RF_PARAMS[k0]}, engine of [0+] {RF_PARAMS[k1]}, start paths grown through (x, v) = "
+            f"{tuple(scn['minus'])} / {tuple(scn['plus'])}]")
+    tmp = common.scratch_dir("infv_c11rf_")
+    errs = []
+    info = {}
+    try:
+        e0, e1 = rf_ensembles(quantis, accept_all=not same)
+        old0 = rf_grow(rf_engine(k0, 11), e0, scn["minus"], os.path.join(tmp, "grow0"))
+        old1 = rf_grow(rf_engine(k1, 12), e1, scn["plus"], os.path.join(tmp, "grow1"))
+        o0, o1 = orders_of(old0), orders_of(old1)
+        info["lengths"] = [len(o0), len(o1)]
+        ok = (3 <= len(o0) < RF_MAXLEN and 3 <= len(o1) < RF_MAXLEN and o0[0] > RF_L0 and o0[-1] > RF_L0 and o0[-2] < RF_L0
+              and all(o <= RF_L0 for o in o0[1:-1]) and o1[0] < RF_L0 < o1[1] and all(RF_L0 <= o <= RF_LN for o in o1[1:-1])
+              and (o1[-1] < RF_L0 or o1[-1] > RF_LN))
+        if not ok:
+            info["setup"] = "start paths are not a valid [0-]/[0+] pair"
+            return [], False, info
+        eng0, eng1 = rf_engine(k0, 1), rf_engine(k1, 2)
+        eng0.rf_label, eng1.rf_label = "[0-]", "[0+]"
+        fn = tis.quantis_swap_zero if quantis else tis.retis_swap_zero
+        hist = [(old0, old1)]
+        for step in (1, 2):
+            wdir = os.path.join(tmp, f"worker{step}")
+            os.makedirs(wdir)
+            eng0.exe_dir = eng1.exe_dir = wdir
+            cur0, cur1 = hist[-1]
+            picked = {-1: {"ens": e0, "traj": cur0}, 0: {"ens": e1, "traj": cur1}}
+            with PropagateRecorder() as rec:
+                try:
+                    acc, paths, status = fn(picked, {-1: [eng0], 0: [eng1]})
+                except Exception as e:
+                    errs.append(("raised", f"{who}: swap {step} raised {type(e).__name__}: {rf_clean(e)}"[:600] + tail))
+                    return errs, True, info
+            bad = answer_domain_error(acc, paths, status)
+            if bad:
+                errs.append(("raised", f"{who}: swap {step}: answer outside the move's answer domain: {bad}{tail}"))
+                return errs, True, info
+            info[f"swap{step}"] = f"{status} {paths[0].length}/{paths[1].length}"
+            if not acc:
+                if step == 1 and quantis and not same and status in ("QS0", "QS1"):
+                    # two levels of theory: the other engine's step from the shooting point need not cross lambda_0
+                    return errs, False, info
+                if step == 1:
+                    errs.append(("rejected", f"{who}: the swap of the valid pair (lengths {len(o0)} / {len(o1)}, limit {RF_MAXLEN}) was rejected "
+                                             f"with status {status}{tail}"))
+                else:
+                    errs.append(("swap back rejected", f"{who}: first swap accepted, the swap back was rejected with status {status}{tail}"))
+                return errs, True, info
+            new0, new1 = paths
+            errs += [(k, f"{who}: {m}{tail}") for k, m in rf_swap_oracle(scn, step, hist[-1], (new0, new1), (eng0, eng1), rec.calls, same)]
+            hist.append((new0, new1))
+        # (4) two swaps restore both order sequences
+        for name, a, b in (("[0-]", hist[0][0], hist[2][0]), ("[0+]", hist[0][1], hist[2][1])):
+            oa, ob = orders_of(a), orders_of(b)
+            if len(oa) != len(ob):
+                errs.append(("not restored", f"{who}: swapping twice did not restore the {name} path: {len(oa)} frames -> {len(ob)} frames, "
+                                             f"first orders {[round(float(x), 6) for x in oa[:3]]} -> {[round(float(x), 6) for x in ob[:3]]}{tail}"))
+            else:
+                d, k = max((abs(float(x) - float(y)), k) for k, (x, y) in enumerate(zip(oa, ob)))
+                if d > RF_TOL:
+                    errs.append(("not restored", f"{who}: swapping twice did not restore the {name} path within {RF_TOL}: frame {k} "
+                                                 f"{float(oa[k]):.9f} -> {float(ob[k]):.9f} (largest difference {d:.3g} over {len(oa)} frames){tail}"))
+        return errs, True, info
+    finally:
+        common.rmtree(tmp)
+
+
+def rf_scenarios(quick):
+    pairs = ([(RF_MINUS[i % len(RF_MINUS)], b) for i, b in enumerate(RF_PLUS)] if quick
+             else [(a, b) for a in RF_MINUS for b in RF_PLUS])
+    return [{"move": mv, "engines": en, "minus": list(a), "plus": list(b)}
+            for mv in ("retis", "quantis") for en in ("same", "different") for a, b in pairs]
+
+
+def real_files_stage(ctx):
+    """the family of zero swaps with real file-writing engines (oracle only)"""
+    import logging
+    import time
+    for lg in ("infretis.core.tis", "infretis.classes.path", "infretis.classes.engines.enginebase", "infretis.classes.engines.turtlemdengine"):
+        logging.getLogger(lg).setLevel(logging.ERROR)
+    t0 = time.time()
+    scns = rf_scenarios(ctx.tier == "quick")
+    kinds = set()
+    nev = nfail = 0
+    skipped = []
+    for scn in scns:
+        try:
+            errs, evaluated, info = run_real_files(scn)
+        except Exception as e:                  # the set-up itself (engine factory, growing the start paths) broke
+            ctx.violation(f"real-file zero swaps: scenario could not be set up ({type(e).__name__}: {rf_clean(e)})"[:400],
+                          {"kind": "real_files", "scenario": scn}, False)
+            return
+        if not evaluated:
+            skipped.append({"scenario": scn, "info": info})
+            continue
+        nev += 1
+        ctx.count(("rf", repr(scn)), nontrivial=True)
+        ctx.dist(f"real files double swap {scn['move']} {scn['engines']} engines")
+        if errs:
+            nfail += 1
+        elif nev <= 2:
+            ctx.sample({"real_files": scn, "result": info})
+        for kind, msg in errs:                  # one replay per clause of the statement that fails
+            if kind not in kinds:
+                kinds.add(kind)
+                ctx.violation(f"C11 statement fails on the implementation: {msg}", {"kind": "real_files", "scenario": scn}, True)
+    ctx.cov["real_file_swaps"] = {"scenarios": len(scns), "evaluated": nev, "failures": nfail, "not_evaluated": skipped,
+                                  "wall_s": round(time.time() - t0, 1)}
+    if nev < (3 * len(scns)) // 4:
+        ctx.violation(f"real-file zero swaps: only {nev} of {len(scns)} scenarios could be evaluated (generator broken)",
+                      {"kind": "real_files_coverage", "not_evaluated": skipped[:4]}, False)
+
+
 def case_size(c):
     return (len(c.old0) + len(c.old1) + sum(len(r) for _, r in c.script if r is not None), int(c.quantis), len(c.moves) and int("wf" in c.moves))
 
@@ -1506,6 +1857,9 @@ def run(ctx):
         tis.np = saved_np
         tis.ENGINES = {}
 
+    # zero swaps run by two real file-writing engine objects in one shared worker directory (oracle only)
+    real_files_stage(ctx)
+
     ctx.cov["rule"] = ("lock-step: [0-] paths over alphabet {-1,0,1,2,3} and [0+] paths over {1,2,3,5,6} (interfaces lambda_-1=0, lambda_0=2, lambda_N=5), "
                        "lengths 3..%d, all/sampled pairs (see pair_sampling) x seeded choice of backward/forward stream pattern and length limit "
                        "(limits chosen around the resulting lengths: exact hits included; 20%% unequal limits, either order); a full grid of 8x8 stream patterns x all limits x "
@@ -1521,19 +1875,28 @@ def run(ctx):
                        "dynamics, F0 for the [0-] engine and F1 != F0 for the [0+] engine (ordered pairs of 5 kick tables), the [0-] path cut from an "
                        "F0-trajectory and the [0+] path from an F1-trajectory (seeded states); each with retis/quantis, lambda_minus_one on/off, "
                        "maxlength 40/12 and unequal limits in both orders (9/14, 14/9; retis also 12/40, 40/12); oracle per swap, for every pair of limits: accepted paths complete and below their own limits, engine identities, new paths are trajectories of their own ensemble's dynamics; after two "
-                       "swaps both order sequences restored; every retis swap also compared with the extracted model." % (5 if quick else 6))
+                       "swaps both order sequences restored; every retis swap also compared with the extracted model.  "
+                       "real files (oracle only): retis/quantis x (same parameters | two levels of theory) x %s start-path pairs grown through fixed (x, v), "
+                       "each a double swap by two real TurtleMDEngine objects sharing one worker directory per move; clauses: frames carry their own data "
+                       "(file exists, configuration read back has the stored order), no file written by two propagate calls of a move, junction on the "
+                       "configurations, swap back accepted and both order sequences restored within 1e-6 (see real_file_swaps)."
+                       % (5 if quick else 6, "5 (every [0+] start, [0-] starts cycled)" if quick else "all 4x5"))
     ctx.cov["correspondence"] = {"compared": len(reqs) + corr_ds["compared"], "disagreements": corr_fail + corr_ds["disagreements"],
                                  "variant": variant_report(),
                                  "scripted lock-step": {"compared": len(reqs), "disagreements": corr_fail},
                                  "swaps of the reversible-engine double swaps": corr_ds}
     ctx.cov["trusted_base"] += ["extraction: ExtrOcamlBasic only; ocaml/util.ml + ocaml/c11_driver.ml",
                                 "py/checks/c11.py: TapeEngine/VerletEngine (subclasses of plugins.engines.ScriptedEngine, real add_to_path; engine identity = eid attribute of the object, written into every frame's config name and call log), ScriptRng, np.exp shim, encoders",
-                                "numpy.exp (value handed to the model as an exact rational)"]
+                                "numpy.exp (value handed to the model as an exact rational)",
+                                "real-file family: turtlemd (VelocityVerlet, DoubleWell), infretis' xyz reader/writer used to write the start configuration and to read frames back, "
+                                "PropagateRecorder (wrapper around EngineBase.propagate, directory listings), rf_grow (start paths by two propagate calls + paste_paths)"]
     ctx.assumptions += ["orders, interfaces, weights are integer-valued floats; energies/betas dyadic (float arithmetic exact)",
                         "System reduced to (order[0], config tag, vel_rev, vpot); Path attributes generated/path_number/weights not compared",
                         "-inf represented in the model by an integer below every order value of the case",
                         "validity, limit and double-swap oracles are evaluated for valid old paths and honest engines, each new path against its own ensemble's limit, "
                         "for every pair of limits (no input class is exempt); they do not depend on the variant probe, which only selects the model variant of the lock-step",
+                        "real-file family: oracle only, no model comparison; velocity Verlet dynamics (deterministic, time-reversible up to the 9 decimals of the xyz files, tolerance 1e-6); "
+                        "one fresh worker directory per move shared by the two engine objects; start paths are trajectories of their own ensemble's engine",
                         "two-engine double swap: the old [0-] path is a trajectory of the [0-] engine and the old [0+] path one of the [0+] engine (as in a simulation, where each path was generated in its own ensemble); both engines share phase space, configurations, order parameter and velocity reversal"]
 
 
@@ -1572,6 +1935,15 @@ def replay(doc):
             names, starts = (rp["force"], rp["force"]), (tuple(rp["start"]), None)
         ml = rp["maxlen"] if isinstance(rp["maxlen"], int) else tuple(rp["maxlen"])
         print("oracle:", run_double_swap(ctx, VerletEngine, None, rp["quantis"], rp["lm1"], names, starts, ml))
+        return 0
+    if rp.get("kind") == "real_files":
+        for lg in ("infretis.core.tis", "infretis.classes.path", "infretis.classes.engines.enginebase", "infretis.classes.engines.turtlemdengine"):
+            logging.getLogger(lg).setLevel(logging.ERROR)
+        errs, evaluated, info = run_real_files(rp["scenario"])
+        print("evaluated:", evaluated, json.dumps(info))
+        print("oracle:", "no clause fails" if not errs else "")
+        for kind, msg in errs:
+            print(f"  [{kind}] {msg}")
         return 0
     if rp.get("kind") == "ds_lockstep":
         d = rp["setup"]
